@@ -39,6 +39,7 @@ type interpreter struct {
 	tracing            bool
 	cur                *frame // innermost running frame (for positions)
 	onces              map[*value]bool
+	syncMaps           map[*value]*omap
 }
 
 type deferred struct {
@@ -319,11 +320,11 @@ func normalizePanic(r any) any {
 	case targetPanic, targetRuntimeError, engineError, pathAbort, nonTermination:
 		return p
 	case runtime.Error:
-		return engineError{fmt.Sprintf("interpreter crashed: %v\n%s", p, debug.Stack())}
+		return engineError{fmt.Sprintf("interpreter crashed: %v\n%s", p, shortStack())}
 	case string:
-		return engineError{"interpreter panic: " + p + "\n" + string(debug.Stack())}
+		return engineError{"interpreter panic: " + p + "\n" + shortStack()}
 	default:
-		return engineError{fmt.Sprintf("interpreter panic: %T %v\n%s", r, r, debug.Stack())}
+		return engineError{fmt.Sprintf("interpreter panic: %T %v\n%s", r, r, shortStack())}
 	}
 }
 
@@ -878,4 +879,19 @@ func shortPos(p string) string {
 		return p[i+1:]
 	}
 	return p
+}
+
+// shortStack: the few innermost interpreter frames (enough to locate an engine gap).
+func shortStack() string {
+	lines := strings.Split(string(debug.Stack()), "\n")
+	var out []string
+	for _, l := range lines {
+		if strings.Contains(l, "symx.") && !strings.Contains(l, "normalizePanic") && !strings.Contains(l, "shortStack") {
+			out = append(out, strings.TrimSpace(l))
+			if len(out) >= 6 {
+				break
+			}
+		}
+	}
+	return strings.Join(out, " < ")
 }
